@@ -966,8 +966,12 @@ class RTCSctpTransport(AsyncIOEventEmitter):
         """
         Mark an incoming data TSN as received.
         """
-        # it's a duplicate
-        if uint32_gte(self._last_received_tsn, tsn) or tsn in self._sack_misordered:
+        # it's a duplicate (a TSN half the number space away is neither ahead
+        # of nor behind the cumulative TSN: it is not new either)
+        if (
+            not uint32_gt(tsn, self._last_received_tsn)
+            or tsn in self._sack_misordered
+        ):
             self._sack_duplicates.append(tsn)
             return True
 
